@@ -133,6 +133,9 @@ fn alpha_handover() -> NodeAlphabet {
             cert(CK::Notar, 4, 0, &[1, 2], &[]),
             cert(CK::Skip, 4, 0, &[1], &[2]),
             cert(CK::FastFinal, 3, 0, &[1, 2], &[]),
+            // late skip votes of a validator that timed out in slots the node notarized (45 %)
+            Op::Vote(VoteSpec { kind: VK::Skip, slot: 3, blk: 0, signer: 1 }),
+            Op::Vote(VoteSpec { kind: VK::Skip, slot: 2, blk: 0, signer: 1 }),
         ],
         blocks: vec![
             (b(1, 0), GENESIS),
